@@ -219,6 +219,9 @@ func ComputeFactsInit(fn *ssa.Function, kill KillFunc, init FactSet) *FactFlow {
 		ff.applyBlock(b, cur, nil)
 		out[b] = cur
 		for si, s := range b.Succs {
+			if infeasibleEdge(b, si) {
+				continue // `if false { ... }`: the dead arm establishes nothing
+			}
 			es := ff.edgeFacts(b, si, cur)
 			old, seen := ff.in[s]
 			var nw FactSet
@@ -317,4 +320,25 @@ func (ff *FactFlow) OnPhiEdge(phi *ssa.Phi, i int) FactSet {
 		}
 	}
 	return FactSet{}
+}
+
+// infeasibleEdge: the block ends in an If on a constant and edge si is the arm
+// that is never taken.
+func infeasibleEdge(b *ssa.BasicBlock, si int) bool {
+	if len(b.Instrs) == 0 || len(b.Succs) != 2 {
+		return false
+	}
+	ifi, ok := b.Instrs[len(b.Instrs)-1].(*ssa.If)
+	if !ok {
+		return false
+	}
+	c, ok := ifi.Cond.(*ssa.Const)
+	if !ok || c.Value == nil {
+		return false
+	}
+	taken := 1
+	if c.Value.ExactString() == "true" {
+		taken = 0
+	}
+	return si != taken
 }
